@@ -21,7 +21,12 @@ let () = run (fun case impl ->
       let tgt = if target = "-" then None else Some (z_of_hex target) in
       let kind = (match toks with n :: _ -> n | [] -> "?") in
       let status = field impl "asm=" in
-      (match StmtSpec.expected_bytes i addr_n tgt with
+      (* "! <bias>": operands were written as value + bias (values the operand types cannot hold);
+         when at least one operand was biased the statement has no encoding *)
+      let nbiased = (try int_of_string (field impl "biased=") with _ -> 0) in
+      let expected = if Stdlib.List.mem "!" toks && nbiased > 0 then None else StmtSpec.expected_bytes i addr_n tgt in
+      if Stdlib.List.mem "!" toks then count ("A.biased." ^ (if nbiased > 0 then "operand" else "none"));
+      (match expected with
        | Some bytes ->
            count ("A." ^ kind ^ ".encodable"); note_nontrivial case;
            let expected = hex_of_bytes bytes in
